@@ -71,6 +71,25 @@ func (s *fstate) contradicts(f *Term) bool {
 		}
 	}
 	switch f.S {
+	case "true", "false":
+		// a boolean known to equal the opposite constant
+		if len(f.A) == 1 {
+			opp := mk("const", "false")
+			if f.S == "false" {
+				opp = mk("const", "true")
+			}
+			if s.has(fact("eq", f.A[0], opp)) || s.has(fact("eq", opp, f.A[0])) {
+				return true
+			}
+		}
+	case "nil", "nonnil":
+		if len(f.A) == 1 && f.S == "nonnil" {
+			if s.has(fact("eq", f.A[0], mk("nil", ""))) || s.has(fact("eq", mk("nil", ""), f.A[0])) {
+				return true
+			}
+		}
+	}
+	switch f.S {
 	case "lt": // lt(a,b) contradicts le(b,a)
 		if s.has(fact("le", f.A[1], f.A[0])) || s.has(fact("lt", f.A[1], f.A[0])) {
 			return true
@@ -80,6 +99,18 @@ func (s *fstate) contradicts(f *Term) bool {
 			return true
 		}
 	case "eq":
+		for i := 0; i < 2; i++ {
+			x, c := f.A[i], f.A[1-i]
+			if c.K == "const" && c.S == "false" && s.has(fact("true", x)) {
+				return true
+			}
+			if c.K == "const" && c.S == "true" && s.has(fact("false", x)) {
+				return true
+			}
+			if c.K == "nil" && s.has(fact("nonnil", x)) {
+				return true
+			}
+		}
 		// x == c1 while the state knows x == c2 for a different constant
 		for i := 0; i < 2; i++ {
 			x, c := f.A[i], f.A[1-i]
@@ -475,6 +506,8 @@ func (f *e1func) prepare() {
 	assigns := map[types.Object]int{}
 	defExpr := map[types.Object]ast.Expr{}
 	addrTaken := map[types.Object]bool{}
+	fieldStored := map[types.Object]bool{} // only marked because a field / element was stored through the variable
+	realAddr := map[types.Object]bool{}    // &v occurs
 	inLoopDef := map[types.Object]bool{}
 	root := fi.Root()
 	var scan func(n ast.Node, inLit bool, loop int)
@@ -542,6 +575,7 @@ func (f *e1func) prepare() {
 						if rid, ok := x.(*ast.Ident); ok {
 							if o := objOf(rid); o != nil {
 								addrTaken[o] = true
+								fieldStored[o] = true
 							}
 						}
 						continue
@@ -587,6 +621,7 @@ func (f *e1func) prepare() {
 					if id, ok := unparen(s.X).(*ast.Ident); ok {
 						if o := objOf(id); o != nil {
 							addrTaken[o] = true
+							realAddr[o] = true
 						}
 					}
 				}
@@ -597,7 +632,20 @@ func (f *e1func) prepare() {
 	if root.Body != nil {
 		scan(root.Body, false, 0)
 	}
-	f.assigned, f.addrTaken = assigns, addrTaken
+	// for parameter substitution of interpreted helpers: a reference-typed parameter may have fields stored through it
+	subAddr := map[types.Object]bool{}
+	for o := range addrTaken {
+		if realAddr[o] {
+			subAddr[o] = true
+			continue
+		}
+		switch o.Type().Underlying().(type) {
+		case *types.Pointer, *types.Map, *types.Slice, *types.Interface, *types.Chan:
+		default:
+			subAddr[o] = true
+		}
+	}
+	f.assigned, f.addrTaken = assigns, subAddr
 	inl := map[types.Object]ast.Expr{}
 	for o, n := range assigns {
 		if n != 1 || addrTaken[o] || defExpr[o] == nil {
@@ -1978,9 +2026,7 @@ func (f *e1func) branchExpr(st *fstate, cond ast.Expr, val bool) []*fstate {
 		// also state each fact with locally defined variables replaced by their (still valid) definitions
 		n := len(fs)
 		for i := 0; i < n; i++ {
-			if x := f.expandDefs(st, fs[i]); x != nil {
-				fs = append(fs, x)
-			}
+			fs = append(fs, f.expandDefs(st, fs[i])...)
 		}
 		fs = append(fs, deriveFacts(st, fs)...)
 		if ns := st.with(fs...); ns != nil {
@@ -1991,39 +2037,67 @@ func (f *e1func) branchExpr(st *fstate, cond ast.Expr, val bool) []*fstate {
 }
 
 // expandDefs substitutes v -> e for every def(v, e) fact of the state (a def fact is killed as soon
-// as anything it mentions is reassigned, so the substitution is valid where it is made).
-func (f *e1func) expandDefs(st *fstate, t *Term) *Term {
+// as anything it mentions is reassigned, so the substitution is valid where it is made).  Two variants are
+// produced: through plain definitions only, and additionally through "v is result i of that call".
+func (f *e1func) expandDefs(st *fstate, t *Term) []*Term {
 	defs := map[string]*Term{}
 	for _, fc := range st.facts {
 		if fc.S == "def" && len(fc.A) == 2 && fc.A[0].K == "var" {
 			defs[fc.A[0].Key()] = fc.A[1]
 		}
 	}
-	if len(defs) == 0 {
-		return nil
-	}
-	changed := false
-	var rec func(t *Term, depth int) *Term
-	rec = func(t *Term, depth int) *Term {
-		if t.K == "var" && depth < 4 {
-			if d, ok := defs[t.Key()]; ok {
-				changed = true
-				return rec(d, depth+1)
+	defs3 := map[string]*Term{}
+	for _, fc := range st.facts {
+		if fc.S == "def" && len(fc.A) == 3 && fc.A[0].K == "var" {
+			if _, dup := defs[fc.A[0].Key()]; !dup {
+				defs3[fc.A[0].Key()] = mk("res", fc.A[2].S, fc.A[1])
 			}
-			return t
 		}
-		if len(t.A) == 0 {
-			return t
-		}
-		n := &Term{K: t.K, S: t.S, Obj: t.Obj}
-		for _, a := range t.A {
-			n.A = append(n.A, rec(a, depth))
-		}
-		return n
 	}
-	out := rec(t, 0)
-	if !changed {
+	if len(defs) == 0 && len(defs3) == 0 {
 		return nil
+	}
+	expand := func(with3 bool) *Term {
+		changed := false
+		var rec func(t *Term, depth int) *Term
+		rec = func(t *Term, depth int) *Term {
+			if t.K == "var" && depth < 4 {
+				if d, ok := defs[t.Key()]; ok {
+					changed = true
+					return rec(d, depth+1)
+				}
+				if with3 {
+					if d, ok := defs3[t.Key()]; ok {
+						changed = true
+						return rec(d, depth+1)
+					}
+				}
+				return t
+			}
+			if len(t.A) == 0 {
+				return t
+			}
+			n := &Term{K: t.K, S: t.S, Obj: t.Obj}
+			for _, a := range t.A {
+				n.A = append(n.A, rec(a, depth))
+			}
+			return n
+		}
+		out := rec(t, 0)
+		if !changed {
+			return nil
+		}
+		return out
+	}
+	var out []*Term
+	a := expand(false)
+	if a != nil {
+		out = append(out, a)
+	}
+	if len(defs3) > 0 {
+		if b := expand(true); b != nil && (a == nil || a.Key() != b.Key()) {
+			out = append(out, b)
+		}
 	}
 	return out
 }
